@@ -57,6 +57,9 @@ type Hub struct {
 
 	hasStarted bool
 
+	// set once Shutdown was invoked, no connection is initiated afterwards
+	hasShutdown bool
+
 	muxCon        sync.Mutex
 	muxConAttempt sync.Mutex
 	muxReg        sync.Mutex
@@ -107,8 +110,21 @@ func (h *Hub) Start() {
 
 // close all connections
 func (h *Hub) Shutdown() {
+	h.muxStarted.Lock()
+	h.hasShutdown = true
+	h.muxStarted.Unlock()
+
 	h.mdns.Shutdown()
+
+	// closing a connection removes it from the map
+	h.muxCon.Lock()
+	connections := make([]api.ShipConnectionInterface, 0, len(h.connections))
 	for _, c := range h.connections {
+		connections = append(connections, c)
+	}
+	h.muxCon.Unlock()
+
+	for _, c := range connections {
 		c.CloseConnection(false, 0, "")
 	}
 	if h.httpServer == nil {
@@ -153,6 +169,10 @@ func (h *Hub) numberPairedServices() int {
 
 // startup mDNS if a paired service is not connected
 func (h *Hub) checkAutoReannounce() {
+	if h.checkHasShutdown() {
+		return
+	}
+
 	countPairedServices := h.numberPairedServices()
 	h.muxCon.Lock()
 	countConnections := len(h.connections)
